@@ -39,9 +39,13 @@ REQUIRED = {'zero-coordinate-at-map': 0.05, 'refit-on-same-optimizer': 0.15, 'sa
 DERIVED = ['mu', 'logg', 'avg_T']
 
 
+STRATA = {'nestle': 2, 'multinest-single': 1, 'multinest-multi': 1}
+STRATA_KEY = 'sampler'
+
+
 @st.composite
-def _case(draw):
-    sampler = draw(st.sampled_from(['nestle', 'multinest-single', 'nestle', 'multinest-multi']))
+def _case(draw, sampler=None):
+    sampler = sampler or draw(st.sampled_from(['nestle', 'multinest-single', 'nestle', 'multinest-multi']))
     family = draw(st.sampled_from(['transmission', 'emission', 'transmission']))
     k = draw(S.ints(1, 4))
     fitted = draw(S.perm(['planet_radius', 'T', 'mol0', 'fill', 'clouds_pressure']))[:k]
@@ -69,8 +73,8 @@ def _case(draw):
             'size': draw(st.sampled_from(['heavy', 'light', 'lighter'])), 'refit': draw(st.sampled_from([True, False, False])), 'zero_coord': draw(st.sampled_from([True, False]))}
 
 
-def strategy(tier):
-    return _case()
+def strategy(tier, part=None):
+    return _case(part)
 
 
 def weights_for(case):
